@@ -94,6 +94,11 @@ def prepare_scratch(scratch):
                         open(p, "w").write(s2)
         shutil.copy(os.path.join(dst, "Cargo.lock"), os.path.join(ext_dst, "Cargo.lock"))
     apply_shims(dst)
+    # the Vec-operation models of the copying-decoder harness name `Vec<T, A>`: needs an unstable feature
+    # gate at the crate root (cfg(kani) only; a prepended inner attribute, nothing else changes)
+    lib = os.path.join(dst, "src", "lib.rs")
+    body = open(lib).read()
+    open(lib, "w").write("#![cfg_attr(kani, feature(allocator_api))]\n" + body)
     return {"scratch": scratch, "prepare_s": round(time.time() - t0, 2), "injected": injected}
 
 
